@@ -463,6 +463,7 @@ func init() {
 		Level: "model_checking",
 		Rule: "Explicit-state search over request histories on one Transcoder (deterministic maximal-reuse pool through the verifsync shim): world 1 (gRPC/proto/gzip target): alphabet of 21 requests (6 clean RPCs covering re-framing, re-encoding and compression on both legs incl. a 5 kB message that grows pooled buffers; validation failures, cuts inside envelope / payload / flat body, over-limit, four kinds of corrupt gzip, undecodable message, corrupt gzip response, early return, backend panic before/after its first write) and 6 probes; " +
 			"world 2 (REST target): 11 requests (incl. a backend that answers before reading a request that turns out broken) over shared route targets and 5 probes; world 3 (gRPC-Web target reached by re-framing): 10 requests incl. five malformed trailer / message frames from the backend, 4 probes; world 5 (flat Connect target with another codec; backends that answer before reading a request that turns out broken; a GET with declared compression): 8 requests, 3 probes; world 4 (a generated and a dynamic service with different type resolvers on one Transcoder): 5 requests incl. google.protobuf.Any of a dynamically known type, 4 probes. Every history of depth <= 3 (quick) / <= 4 (thorough) is replayed on a fresh Transcoder followed by each probe; the probe's semantic outcome (client and backend side) must equal its outcome on a fresh Transcoder; no pool element may be Put twice; poison must not reach outputs. " +
+			"world 7 (REST HttpBody uploads / downloads toward gRPC, one method through two bindings whose response_body differ): 6 requests, 5 probes; world 8 (REST to REST with differing compression, HttpBody payloads): 4 requests, 4 probes; handlers close the request body twice. " +
 			"A state is a history (no merging); a transition is one replayed request. Non-trivial = distinct pool-state key (multiset of pooled buffer capacities and pooled codec objects) reached before a probe.",
 		Assume:  []string{"the deterministic LIFO pool of the shim is the maximal-reuse behaviour the real sync.Pool may exhibit", "every explored trace is an execution of the implementation itself (no separate model)"},
 		Custom:  c15Custom,
